@@ -256,6 +256,9 @@ func (p *parser) readStructType() *Type {
 				}
 
 			} else {
+				if t.Kind == TypeStruct && len(t.Fields) > 0 {
+					return nil
+				}
 				t.Kind = TypeEnum
 				p.backup()
 			}
